@@ -139,7 +139,7 @@ def py_reduce(stack):
 def run(ctx, rep):
     rng = ctx.rng
     rep.rule = ("generated stacks (12 operator subsets x sizes 2..64, with/without constants and integer rows), hand shapes and "
-                "CAS-targeted shapes; distinct = distinct stacks; non-trivial = the reduction removes a row or the CAS changes the stack")
+                "CAS-targeted shapes (collection-heavy trees, twin terms that differ in one integer, the same constants in several places); distinct = distinct stacks; non-trivial = the reduction removes a row or the CAS changes the stack")
     rep.assumptions = ["80-digit mpmath evaluation stands for exact real arithmetic in the CAS oracle",
                        "CAS soundness with free constants is checked through constants-as-variables and structure (count, well-formedness), "
                        "not by searching witness constants"]
